@@ -1,7 +1,7 @@
-CONSTANTS NH = 3  MaxPrem = 2  MaxOps = 5  Deviation = TRUE
+CONSTANTS MaxOps = 6  MaxDepth = 3  Merge = FALSE
 INIT Init
 NEXT Next
 CONSTRAINT Bound
-VIEW ViewGen
+VIEW View
 ACTION_CONSTRAINT Edge
 CHECK_DEADLOCK FALSE
